@@ -75,7 +75,10 @@ class C18(Prop):
                          streams=rng.choice([(7,), (7, 9)]), max_children=2, max_depth=2, ops_per_step=(1, 2), pre_ops=1, post_ops=1,
                          base=rng.choice([0, 1000]), extras=rng.random() < 0.5)
         case = case_from_cfg(rng, cfg)
-        case["rep"] = rng.choice(["encoded_st", "decoded", "encoded_ctor"])
+        # encoded_both: the filter object was built with ANOTHER trace's symbol table (same names, other ids); the table passed along with
+        # the frame is the frame's and decides what a name id means
+        case["rep"] = rng.choice(["encoded_st", "decoded", "encoded_ctor", "encoded_both"])
+        case["no_end"] = rng.random() < 0.3         # a column subset without the derived `end` column
         case["fseed"] = rng.randrange(10 ** 6)
         case["incl"] = rng.random() < 0.5
         case["dup_labels"] = rng.random() < 0.4     # multi-rank frame concatenated WITHOUT renumbering: row labels repeat across ranks
@@ -116,7 +119,7 @@ class C18(Prop):
     def observe(self, case):
         import pandas as pd
         from hta.common.trace_filter import CompositeFilter
-        obs: Dict[str, Any] = {"prop": "C18", "err": "", "hasST": case["rep"] == "encoded_st", "frame": [], "after": [], "apps": [], "frame2": [], "apps2": []}
+        obs: Dict[str, Any] = {"prop": "C18", "err": "", "hasST": case["rep"] in ("encoded_st", "encoded_both"), "frame": [], "after": [], "apps": [], "frame2": [], "apps2": []}
         with hta.CaseDir("c18") as d:
             ta = write_and_load(case, d, include_last=case["incl"])
             st_obj = ta.t.symbol_table
@@ -133,11 +136,18 @@ class C18(Prop):
                     p["cat"] = p["s_cat"]
                 parts.append(p)
             df = pd.concat(parts, ignore_index=not case.get("dup_labels", False))
+            if case.get("no_end") and "end" in df.columns:
+                df = df.drop(columns=["end"])
             obs["frame"] = _rows(df, st)
             if not obs["frame"]:
                 return {"skip": True}
             rng = random.Random(case["fseed"])
-            pass_st = st_obj if case["rep"] == "encoded_st" else None
+            pass_st = st_obj if case["rep"] in ("encoded_st", "encoded_both") else None
+            other_st = None
+            if case["rep"] == "encoded_both":
+                from hta.common.trace_symbol_table import TraceSymbolTable
+                other_st = TraceSymbolTable()
+                other_st.add_symbols(list(reversed(st)))
 
             def run(objs, mode, frame_df):
                 if mode == "composite":
@@ -153,8 +163,8 @@ class C18(Prop):
                 objs = None
                 try:
                     for f in rec["fs"]:
-                        f["ctor_st"] = case["rep"] == "encoded_ctor"
-                    objs = [_mk_filter(f, st_obj) for f in rec["fs"]]
+                        f["ctor_st"] = case["rep"] in ("encoded_ctor", "encoded_both")
+                    objs = [_mk_filter(f, other_st if other_st is not None else st_obj) for f in rec["fs"]]
                     rec["out"] = _rows(run(objs, app["mode"], df), st, with_all=False)
                 except Exception as ex:
                     rec["err"] = hta.exc_str(ex)
